@@ -212,26 +212,50 @@ def cases(M):
             # beyond a minute / an hour / a day ...), in both directions
             step = r.choice(BIG_STEPS[unit])
             steps = min(steps, 300)
+        century = j % 10 == 7 and not isdate
+        if century:
+            # a handful of steps covering centuries to millennia with a sub-day unit (elapsed-time counts of such spans
+            # no longer fit a float exactly), the end 1 us short of / beyond / exactly on a step point
+            unit = r.choice(("hours", "minutes", "seconds"))
+            step = {"hours": 10**6, "minutes": 6 * 10**7, "seconds": 36 * 10**8}[unit] // r.choice((1, 2, 5))
+            steps = r.choice((3, 6, 11, 40, 77))
         zn = r.choice(host) if j % 3 else r.choice(names)
         z = tzdb.Z.get(zn)
         near = None
-        if z.trans and j % 2 == 0 and not isdate:
+        if z.trans and j % 2 == 0 and not isdate and not century:
             ti = r.randrange(len(z.trans))
             t = z.trans[ti][0]
             u = (t - r.choice((0, 1, 3600, 86400, 86400 * 3, 86400 * 31))) * US + r.choice((0, 0, 999999))
             near = ti
         else:
             y, mo = r.randrange(1990, 2035), r.randrange(1, 13)
+            if century:
+                y = r.choice((60, 400, 1200, 1400, 1990))
             if j % 10 == 3:
                 y = r.choice((1200, 1400, 2600, 3000, 5000, 9900, 60))      # far from the epoch (float timestamps lose the microseconds there)
             d = min(r.choice((1, 15, 28, 29, 30, 31)), cal.dim(y, mo))
             u = wall_us(dt.datetime(y, mo, d, r.randrange(24), r.randrange(60), r.randrange(60), r.choice((0, 999999))))
-        if not gen.ok_instant(u, 8000):
+        edge = None
+        if j % 10 == 8 and steps:
+            # both ends of the representable range: the last element lies within a step or two of year 9999 (forward) or
+            # year 1 (inverted), so the value after it may not be representable - the iteration has to stop, not raise
+            from pvmon.common import MAX_US, MIN_US
+
+            nomc = {"years": 366 * 86400, "months": 31 * 86400, "weeks": 7 * 86400, "days": 86400, "hours": 3600, "minutes": 60,
+                    "seconds": 1, "microseconds": 0}[unit] * US or 1
+            steps = min(steps, 50)
+            edge = ("hi", "lo")[j // 10 % 2]
+            slack = r.randrange(step * nomc + 1) * r.choice((0, 1, 1, 2))
+            u = (MAX_US - steps * step * nomc - slack) if edge == "hi" else (MIN_US + slack)
+            u = min(max(u, MIN_US), MAX_US)
+            zn, near = "UTC", None
+        elif not gen.ok_instant(u, 8000):
             continue
-        yield {"date": isdate, "unit": unit, "step": step, "steps": steps, "z": zn, "u": u, "near": near,
+        yield {"date": isdate, "unit": unit, "step": step, "steps": steps, "z": zn, "u": u, "near": near, "edge": edge,
                "extra": r.choice((None, None, ("seconds", r.randrange(1, 3)), ("hours", r.randrange(1, 3)), ("days", r.randrange(1, 3)),
                                   ("microseconds", -1), ("microseconds", 1), ("microseconds", -1))),
-               "mode": r.choice(("fwd", "inv", "abs-inv", "abs-fwd")), "naive": j % 7 == 0}
+               "mode": r.choice(("fwd", "inv", "abs-inv", "abs-fwd")) if edge is None else {"hi": r.choice(("fwd", "abs-inv", "abs-fwd")), "lo": "inv"}[edge],
+               "naive": j % 7 == 0 or (edge is not None and j % 3 != 0)}
 
 
 def run(M, c):
@@ -266,6 +290,9 @@ def run(M, c):
         iv = P.interval(a, b, absolute=True)
     crosses = (not c["date"]) and (not c["naive"]) and gen.crosses(c["z"], pos(a), pos(b))
     d0 = a.day
+    if c.get("edge"):
+        M.cls("edge", c["edge"], c["date"], unit, mode)
+        M.count("range_edge_cases")
     if (unit in ("years", "months") and d0 >= 29) or crosses or mode != "fwd":
         M.cls(c["date"], unit, n, mode, d0 >= 29, crosses, c["extra"] is None)
     M.sample(c)
